@@ -31,6 +31,9 @@ def build_jobs(tier, seed):
         jobs.append(J(H['fromstr'], dict(n=n), split_depth=6))
         jobs.append(J(H['fromstr'], dict(n=n, junk='component'),
                       split_depth=6))
+    for n in ((2, 3) if tier == 'quick' else (2, 3, 4)):
+        jobs.append(J(H['fromstr'], dict(n=n, junk='middle'),
+                      split_depth=6))
     jobs.append(J(H['compat'], {}))
     for k in (1, 2):
         jobs.append(J(H['predicate'], dict(k=k), split_depth=8))
